@@ -120,7 +120,8 @@ class Panoptica_Aggregator:
         if continue_file:
             with inevalfilelock:
                 with filelock:
-                    id_list = _load_first_column_entries(self.__output_file)
+                    # the first row is the header, not an evaluated subject
+                    id_list = _load_first_column_entries(self.__output_file)[1:]
                     _write_content(self.__output_buffer_file, [[s] for s in id_list])
 
         atexit.register(self.__exist_handler)
